@@ -274,6 +274,7 @@ func init() {
 			ruleTagBounds(c)
 			ruleTagPreserve(c)
 			ruleTagHelpers(c)
+			ruleTagRun(c)
 		},
 	})
 }
